@@ -809,24 +809,38 @@ def poolEvents (names : List String) : Except String (List String) :=
     | some cls => .ok cls
     | none => .error "events:unknown event type"
 
-def listenerGroup (cx : Ctx) (sec : Section) : Except String GConfig := do
+def listenerGroup (cx : Ctx) (sec : Section) : Except String GConfig :=
   let poolName := afterPrefix "eventlistener:" sec.name
   let E := hereExps cx
-  let priority ← getField cx.penv "eventlistener" sec "priority" [] E >>= asInt
-  let buffer_size ← getField cx.penv "eventlistener" sec "buffer_size" [] E >>= asInt
-  if pgfp_g5 buffer_size 0 then throw "constraint:invalid buffer_size"
-  let handler ← getField cx.penv "eventlistener" sec "result_handler" [] E >>= asStr
+  match getField cx.penv "eventlistener" sec "priority" [] E >>= asInt with
+  | .error e => .error e
+  | .ok priority =>
+  match getField cx.penv "eventlistener" sec "buffer_size" [] E >>= asInt with
+  | .error e => .error e
+  | .ok buffer_size =>
+  if pgfp_g5 buffer_size 0 then .error "constraint:invalid buffer_size" else
+  match getField cx.penv "eventlistener" sec "result_handler" [] E >>= asStr with
+  | .error e => .error e
+  | .ok handler =>
   -- importlib refuses a relative module name with TypeError, which options.py does not catch
-  if strStartsWith "." handler then throw "exception:TypeError"
-  if !cx.handlers.contains handler then throw "constraint:result_handler cannot be resolved"
-  let names ← getField cx.penv "eventlistener" sec "events" [] E >>= asStrs
-  if names.isEmpty then throw "constraint:section requires an events line"
-  let events ← poolEvents names
-  let redirect ← getField cx.penv "eventlistener" sec "redirect_stderr" [] E >>= asBool
-  if redirect then throw "constraint:redirect_stderr not allowed for an eventlistener"
-  let procs ← processesFromSection cx .listener sec poolName poolName
-  pure { kind := .pool, name := poolName, priority, procs, buffer_size,
-         pool_events := sortBy strLt (dedup events), result_handler := handler }
+  if strStartsWith "." handler then .error "exception:TypeError" else
+  if !cx.handlers.contains handler then .error "constraint:result_handler cannot be resolved" else
+  match getField cx.penv "eventlistener" sec "events" [] E >>= asStrs with
+  | .error e => .error e
+  | .ok names =>
+  if names.isEmpty then .error "constraint:section requires an events line" else
+  match poolEvents names with
+  | .error e => .error e
+  | .ok events =>
+  match getField cx.penv "eventlistener" sec "redirect_stderr" [] E >>= asBool with
+  | .error e => .error e
+  | .ok redirect =>
+  if redirect then .error "constraint:redirect_stderr not allowed for an eventlistener" else
+  match processesFromSection cx .listener sec poolName poolName with
+  | .error e => .error e
+  | .ok procs =>
+    .ok { kind := .pool, name := poolName, priority, procs, buffer_size,
+          pool_events := sortBy strLt (dedup events), result_handler := handler }
 
 def listenerGroups (cx : Ctx) : List Section → Except String (List GConfig)
   | [] => .ok []
